@@ -125,7 +125,9 @@ class Encoded(Literal):
                 md.sxtype = ref
                 array.item.append(x)
                 continue
-            x = Factory.property(ref.name, x)
+            # Builtin items get their XSD lexical representation like any
+            # other builtin value (e.g. 'true' for True).
+            x = Factory.property(ref.name, ref.resolve().translate(x, False))
             md = x.__metadata__
             md.sxtype = ref
             array.item.append(x)
